@@ -433,9 +433,23 @@ def splice_fn(src, item, ann):
             # needle is the closure header only: the body is the block that follows (kept verbatim)
             j = pos + len(needle)
             while j < len(body) and body[j] in ' \t\r\n': j += 1
-            if j >= len(body) or body[j] != '{':
-                raise ExtractError('lost anchor: %s::%s: closure %r is not followed by a block' % (src.rel, item.name, needle))
-            repls.append((pos, j, '|%s| -> (%s)\n%s\n' % (params, ret, ctext.rstrip())))
+            if j < len(body) and body[j] == '{':
+                repls.append((pos, j, '|%s| -> (%s)\n%s\n' % (params, ret, ctext.rstrip())))
+                return
+            # an expression body: it runs to the `,` or `)` that ends the argument (bracket depth 0)
+            tk = _retok(body[j:])
+            k2, end = 0, None
+            while k2 < len(tk):
+                t2 = tk[k2]
+                if t2[0] == 'punct' and t2[1] in OPEN:
+                    k2 = match_close(tk, k2) + 1; continue
+                if t2[1] in (',', ')', ';'):
+                    end = j + t2[2]; break
+                k2 += 1
+            if end is None:
+                raise ExtractError('lost anchor: %s::%s: cannot find the end of closure %r' % (src.rel, item.name, needle))
+            expr2 = body[j:end].strip()
+            repls.append((pos, end, '|%s| -> (%s)\n%s\n{ %s }' % (params, ret, ctext.rstrip(), expr2)))
         if nth == 0:
             if not found:
                 raise ExtractError('lost anchor: %s::%s: closure %r not found' % (src.rel, item.name, needle))
